@@ -1052,6 +1052,41 @@ func parseTotalCmd(args []string) int {
 		readND(*cases, func(line []byte) {
 			var c map[string]interface{}
 			json.Unmarshal(line, &c)
+			if c["c"] == "hdrnum" {
+				n := int(c["len"].(float64))
+				var d string
+				switch c["fill"].(string) {
+				case "zeros":
+					d = strings.Repeat("0", n)
+				case "nines":
+					d = strings.Repeat("9", n)
+				case "lead0":
+					if n > 0 {
+						d = strings.Repeat("0", n-1) + "7"
+					}
+				case "one0":
+					if n > 0 {
+						d = "1" + strings.Repeat("0", n-1)
+					}
+				case "plus":
+					d = "+" + strings.Repeat("1", n)
+				case "minus":
+					d = "-" + strings.Repeat("1", n)
+				}
+				sec, ms, seq := "1490137971", "011", "50406"
+				switch c["field"].(string) {
+				case "sec":
+					sec = d
+				case "ms":
+					ms = d
+				case "seq":
+					seq = d
+				}
+				h := "audit(" + sec + "." + ms + ":" + seq + "): "
+				all = append(all, totalCase{rtype: 1300, text: h + "a=1", shape: "hdrnum/" + c["field"].(string)})
+				all = append(all, totalCase{rtype: 1300, line: "type=SYSCALL msg=" + h + "a=1", shape: "hdrnum/" + c["field"].(string)})
+				return
+			}
 			if c["c"] == "header" {
 				how := c["how"].(string)
 				t := map[string]string{
